@@ -1,8 +1,11 @@
 /-
 C09 / C14: the abstract slot invariant under the allocator operations.
+  chain records      `chainRest` / `chainDrop` / `chainPut` / `ownedOf`
+  TierInv.*          one value table: pop / extend (head slot), release (whole chain), resize
   SlotInv.congr      same allocator, same stored tails
-  SlotInv.free_val   `clear_slot`: a live slot goes to the head of its tier's free list
-  SlotInv.alloc_set  `next_free` + write: pop the free list or extend the fill mark
+  SlotInv.free_val   `clear_slot` / `clear_chain`: the slots of a live value go to the free list
+  SlotInv.alloc_set  `next_free` + write: pop the free list or extend the fill mark (head slot)
+  SlotInv.resize     `overwrite_chain`: the continuation slots of a live value
 -/
 import Pdb.Proofs.C09Inv
 
@@ -20,17 +23,400 @@ theorem address_new_inj (off1 tier1 off2 tier2 : Nat) (h1 : off1 < 2 ^ 56) (t1 :
     have b := address_tier_new off2 tier2 h2 t2
     rw [h] at a; rw [a] at b; exact b
 
+/-! ## chain records -/
+
+theorem chainDrop_of_not_mem : ∀ (l : List (Nat × List Nat)) (h : Nat), h ∉ l.map (·.1) →
+    chainDrop l h = l := by
+  intro l
+  induction l with
+  | nil => intro h _; rfl
+  | cons x l ih =>
+    intro h hn
+    obtain ⟨h1, r1⟩ := x
+    simp only [List.map_cons, List.mem_cons, not_or] at hn
+    have hne : ¬ h1 = h := fun e => hn.1 e.symm
+    simp only [chainDrop, hne, if_false]
+    rw [ih h hn.2]
+
+theorem mem_heads_chainDrop : ∀ (l : List (Nat × List Nat)) (h h' : Nat),
+    h' ∈ (chainDrop l h).map (·.1) ↔ h' ∈ l.map (·.1) ∧ h' ≠ h := by
+  intro l
+  induction l with
+  | nil => intro h h'; simp [chainDrop]
+  | cons x l ih =>
+    intro h h'
+    obtain ⟨h1, r1⟩ := x
+    by_cases e : h1 = h
+    · simp only [chainDrop, e, if_true, List.map_cons, List.mem_cons]
+      rw [ih]
+      constructor
+      · rintro ⟨a, b⟩; exact ⟨Or.inr a, b⟩
+      · rintro ⟨a | a, b⟩
+        · exact absurd a b
+        · exact ⟨a, b⟩
+    · simp only [chainDrop, e, if_false, List.map_cons, List.mem_cons]
+      rw [ih]
+      constructor
+      · rintro (a | ⟨a, b⟩)
+        · exact ⟨Or.inl a, by rw [a]; exact e⟩
+        · exact ⟨Or.inr a, b⟩
+      · rintro ⟨a | a, b⟩
+        · exact Or.inl a
+        · exact Or.inr ⟨a, b⟩
+
+theorem nodup_heads_chainDrop : ∀ (l : List (Nat × List Nat)) (h : Nat), (l.map (·.1)).Nodup →
+    ((chainDrop l h).map (·.1)).Nodup := by
+  intro l
+  induction l with
+  | nil => intro h _; simp [chainDrop]
+  | cons x l ih =>
+    intro h hnd
+    obtain ⟨h1, r1⟩ := x
+    simp only [List.map_cons, List.nodup_cons] at hnd
+    by_cases e : h1 = h
+    · simp only [chainDrop, e, if_true]; exact ih h hnd.2
+    · simp only [chainDrop, e, if_false, List.map_cons, List.nodup_cons]
+      refine ⟨fun hm => hnd.1 ((mem_heads_chainDrop l h h1).1 hm).1, ih h hnd.2⟩
+
+theorem chainRest_chainDrop : ∀ (l : List (Nat × List Nat)) (h h' : Nat),
+    chainRest (chainDrop l h) h' = if h' = h then [] else chainRest l h' := by
+  intro l
+  induction l with
+  | nil => intro h h'; simp [chainDrop, chainRest]
+  | cons x l ih =>
+    intro h h'
+    obtain ⟨h1, r1⟩ := x
+    by_cases e : h1 = h
+    · simp only [chainDrop, e, if_true]
+      rw [ih]
+      by_cases e' : h' = h
+      · simp [e']
+      · have : ¬ h = h' := fun x => e' x.symm
+        simp [e', chainRest, this]
+    · simp only [chainDrop, e, if_false, chainRest]
+      by_cases e1 : h1 = h'
+      · have : ¬ h' = h := fun x => e (e1.trans x)
+        simp [e1, this]
+      · simp only [e1, if_false]; exact ih h h'
+
+theorem chainRest_chainPut (l : List (Nat × List Nat)) (h : Nat) (r : List Nat) (h' : Nat) :
+    chainRest (chainPut l h r) h' = if h' = h then r else chainRest l h' := by
+  unfold chainPut
+  cases r with
+  | nil =>
+    simp only [List.isEmpty_nil, if_true]
+    rw [chainRest_chainDrop]
+  | cons a r =>
+    simp only [List.isEmpty_cons, Bool.false_eq_true, if_false, chainRest]
+    by_cases e : h = h'
+    · simp [e]
+    · have : ¬ h' = h := fun x => e x.symm
+      simp only [e, this, if_false]
+      rw [chainRest_chainDrop, if_neg this]
+
+theorem ownedOf_chainPut (l : List (Nat × List Nat)) (h : Nat) (r : List Nat) :
+    ownedOf (chainPut l h r) = r ++ ownedOf (chainDrop l h) := by
+  unfold chainPut
+  cases r with
+  | nil => simp
+  | cons a r => simp [ownedOf]
+
+theorem ownedOf_count_drop : ∀ (l : List (Nat × List Nat)) (h : Nat), (l.map (·.1)).Nodup →
+    ∀ x, (ownedOf l).count x = (chainRest l h).count x + (ownedOf (chainDrop l h)).count x := by
+  intro l
+  induction l with
+  | nil => intro h _ x; simp [ownedOf, chainRest, chainDrop]
+  | cons y l ih =>
+    intro h hnd x
+    obtain ⟨h1, r1⟩ := y
+    simp only [List.map_cons, List.nodup_cons] at hnd
+    by_cases e : h1 = h
+    · have hn : h ∉ l.map (·.1) := by rw [← e]; exact hnd.1
+      simp only [ownedOf, chainRest, chainDrop, e, if_true, List.count_append]
+      rw [chainDrop_of_not_mem l h hn]
+    · simp only [ownedOf, chainRest, chainDrop, e, if_false, List.count_append]
+      rw [ih h hnd.2 x]
+      omega
+
+theorem mem_ownedOf_drop (l : List (Nat × List Nat)) (h : Nat) (hnd : (l.map (·.1)).Nodup) (x : Nat) :
+    x ∈ ownedOf l ↔ x ∈ chainRest l h ∨ x ∈ ownedOf (chainDrop l h) := by
+  have := ownedOf_count_drop l h hnd x
+  rw [← List.count_pos_iff, ← List.count_pos_iff, ← List.count_pos_iff]
+  omega
+
+theorem mem_heads_chainPut (l : List (Nat × List Nat)) (h : Nat) (r : List Nat) (h' : Nat)
+    (hm : h' ∈ (chainPut l h r).map (·.1)) : h' = h ∨ (h' ∈ l.map (·.1) ∧ h' ≠ h) := by
+  unfold chainPut at hm
+  cases r with
+  | nil =>
+    simp only [List.isEmpty_nil, if_true] at hm
+    exact Or.inr ((mem_heads_chainDrop l h h').1 hm)
+  | cons a r =>
+    simp only [List.isEmpty_cons, Bool.false_eq_true, if_false, List.map_cons, List.mem_cons] at hm
+    rcases hm with hm | hm
+    · exact Or.inl hm
+    · exact Or.inr ((mem_heads_chainDrop l h h').1 hm)
+
+theorem nodup_heads_chainPut (l : List (Nat × List Nat)) (h : Nat) (r : List Nat)
+    (hnd : (l.map (·.1)).Nodup) : ((chainPut l h r).map (·.1)).Nodup := by
+  unfold chainPut
+  cases r with
+  | nil => simp only [List.isEmpty_nil, if_true]; exact nodup_heads_chainDrop l h hnd
+  | cons a r =>
+    simp only [List.isEmpty_cons, Bool.false_eq_true, if_false, List.map_cons, List.nodup_cons]
+    exact ⟨fun hm => ((mem_heads_chainDrop l h h).1 hm).2 rfl, nodup_heads_chainDrop l h hnd⟩
+
+/-! ## one value table -/
+
+/-- the invariant of a table depends on the stored tails only at the addresses of its tier -/
+theorem TierInv.frame {tl tl' : Nat → Option Nat} {tier : Nat} {T : Tier} (h : TierInv tl tier T)
+    (he : tier < 256 → ∀ off, off < 2 ^ 56 →
+      tl' (Address.new off tier) = tl (Address.new off tier)) : TierInv tl' tier T := by
+  refine ⟨?_, h.nodup, h.range, h.filled, ?_, h.heads, ?_⟩
+  · intro off h1 hb h3; rw [he h1 off hb]; exact h.fresh off h1 hb h3
+  · intro off h1 hb h2 h3; rw [he h1 off hb]; exact h.cover off h1 hb h2 h3
+  · intro hd h1 hm
+    obtain ⟨a, b, c⟩ := h.headLive hd h1 hm
+    refine ⟨a, b, ?_⟩
+    rw [he h1 hd (Nat.lt_of_lt_of_le b (h.filled h1).2)]; exact c
+
+/-- `next_free` pops the head `o` of the free list, a value with tail `tlv` is written there -/
+theorem TierInv.pop {tl tl' : Nat → Option Nat} {tier : Nat} {T : Tier} (h : TierInv tl tier T)
+    (htier : tier < 256) (o : Nat) (rest : List Nat) (hfree : T.free = o :: rest) (tlv : Nat)
+    (ht : ∀ off, off < 2 ^ 56 → tl' (Address.new off tier) =
+      if off = o then some tlv else tl (Address.new off tier)) :
+    TierInv tl' tier ⟨T.filled, rest, T.chains⟩ := by
+  have hnd := h.nodup
+  rw [hfree] at hnd
+  simp only [List.cons_append, List.nodup_cons] at hnd
+  have hsub : ∀ off, off ∈ rest ++ ownedOf T.chains → off ∈ T.free ++ ownedOf T.chains := by
+    intro off hm; rw [hfree]; exact List.mem_cons_of_mem _ hm
+  have ho := h.range o (by rw [hfree]; simp)
+  refine ⟨?_, hnd.2, fun off hm => h.range off (hsub off hm), h.filled, ?_, h.heads, ?_⟩
+  · intro off _ hb h3
+    rw [ht off hb]
+    have hne : off ≠ o := by
+      rintro rfl
+      rcases h3 with h3 | h3
+      · exact hnd.1 h3
+      · simp only at h3; omega
+    rw [if_neg hne]
+    rcases h3 with h3 | h3
+    · exact h.fresh off htier hb (Or.inl (hsub off h3))
+    · exact h.fresh off htier hb (Or.inr h3)
+  · intro off _ hb h2 h3
+    rw [ht off hb]
+    by_cases e : off = o
+    · right; simp [e]
+    · rw [if_neg e]
+      rcases h.cover off htier hb h2 h3 with h4 | h4
+      · left
+        rw [hfree] at h4
+        simp only [List.cons_append, List.mem_cons] at h4
+        rcases h4 with h4 | h4
+        · exact absurd h4 e
+        · exact h4
+      · exact Or.inr h4
+  · intro hd _ hm
+    obtain ⟨a, b, c⟩ := h.headLive hd htier hm
+    refine ⟨a, b, ?_⟩
+    rw [ht hd (Nat.lt_of_lt_of_le b (h.filled htier).2)]
+    by_cases e : hd = o
+    · simp [e]
+    · rw [if_neg e]; exact c
+
+/-- `next_free` with an empty free list takes the slot at the fill mark -/
+theorem TierInv.extend {tl tl' : Nat → Option Nat} {tier : Nat} {T : Tier} (h : TierInv tl tier T)
+    (htier : tier < 256) (hfree : T.free = []) (hb : T.filled + 1 ≤ 2 ^ 56) (tlv : Nat)
+    (ht : ∀ off, off < 2 ^ 56 → tl' (Address.new off tier) =
+      if off = T.filled then some tlv else tl (Address.new off tier)) :
+    TierInv tl' tier ⟨T.filled + 1, [], T.chains⟩ := by
+  have hnd := h.nodup
+  have hrange := h.range
+  rw [hfree] at hnd hrange
+  have hf := h.filled htier
+  refine ⟨?_, hnd, fun off hm => by have := hrange off hm; simp only; omega, fun _ => ⟨by simp only; omega, hb⟩,
+    ?_, h.heads, ?_⟩
+  · intro off _ hb' h3
+    rw [ht off hb']
+    have hne : off ≠ T.filled := by
+      rintro rfl
+      rcases h3 with h3 | h3
+      · have := hrange _ h3; omega
+      · simp only at h3; omega
+    rw [if_neg hne]
+    rcases h3 with h3 | h3
+    · exact h.fresh off htier hb' (Or.inl (by rw [hfree]; exact h3))
+    · exact h.fresh off htier hb' (Or.inr (by simp only at h3; omega))
+  · intro off _ hb' h2 h3
+    rw [ht off hb']
+    by_cases e : off = T.filled
+    · right; simp [e]
+    · rw [if_neg e]
+      simp only at h3
+      rcases h.cover off htier hb' h2 (by omega) with h4 | h4
+      · left; rw [hfree] at h4; exact h4
+      · exact Or.inr h4
+  · intro hd _ hm
+    obtain ⟨a, b, c⟩ := h.headLive hd htier hm
+    refine ⟨a, by simp only; omega, ?_⟩
+    rw [ht hd (by omega)]
+    have e : hd ≠ T.filled := by omega
+    rw [if_neg e]; exact c
+
+/-- the dead slots after a release: the head slot joins them -/
+theorem mem_dead_release (T : Tier) (off : Nat) (hnd : (T.chains.map (·.1)).Nodup) (x : Nat) :
+    x ∈ ((off :: chainRest T.chains off).reverse ++ T.free) ++ ownedOf (chainDrop T.chains off) ↔
+      x = off ∨ x ∈ T.free ++ ownedOf T.chains := by
+  simp only [List.mem_append, List.mem_reverse, List.mem_cons]
+  rw [mem_ownedOf_drop T.chains off hnd x]
+  constructor
+  · rintro (((a | a) | a) | a)
+    · exact Or.inl a
+    · exact Or.inr (Or.inr (Or.inl a))
+    · exact Or.inr (Or.inl a)
+    · exact Or.inr (Or.inr (Or.inr a))
+  · rintro (a | a | a | a)
+    · exact Or.inl (Or.inl (Or.inl a))
+    · exact Or.inl (Or.inr a)
+    · exact Or.inl (Or.inl (Or.inr a))
+    · exact Or.inr a
+
+/-- `write_remove_plan`: the value at `off` is removed, its slots go to the free list -/
+theorem TierInv.release {tl tl' : Nat → Option Nat} {tier : Nat} {T : Tier} (h : TierInv tl tier T)
+    (htier : tier < 256) (off : Nat) (hlive : (tl (Address.new off tier)).isSome = true)
+    (hoff : 1 ≤ off ∧ off < T.filled)
+    (ht : ∀ off', off' < 2 ^ 56 → tl' (Address.new off' tier) =
+      if off' = off then none else tl (Address.new off' tier)) :
+    TierInv tl' tier
+      ⟨T.filled, (off :: chainRest T.chains off).reverse ++ T.free, chainDrop T.chains off⟩ := by
+  have hf := h.filled htier
+  have hoff56 : off < 2 ^ 56 := by omega
+  have hmem := mem_dead_release T off h.heads
+  have hnotdead : off ∉ T.free ++ ownedOf T.chains := by
+    intro hm
+    have := h.fresh off htier hoff56 (Or.inl hm)
+    rw [this] at hlive; cases hlive
+  refine ⟨?_, ?_, ?_, h.filled, ?_, nodup_heads_chainDrop _ _ h.heads, ?_⟩
+  · intro off' _ hb h3
+    rw [ht off' hb]
+    by_cases e : off' = off
+    · simp [e]
+    · rw [if_neg e]
+      rcases h3 with h3 | h3
+      · rcases (hmem off').1 h3 with h4 | h4
+        · exact absurd h4 e
+        · exact h.fresh off' htier hb (Or.inl h4)
+      · exact h.fresh off' htier hb (Or.inr h3)
+  · -- no duplicates: same multiset as `off :: dead`
+    have hperm : (((off :: chainRest T.chains off).reverse ++ T.free) ++
+        ownedOf (chainDrop T.chains off)).Perm (off :: (T.free ++ ownedOf T.chains)) := by
+      rw [List.perm_iff_count]
+      intro x
+      have := ownedOf_count_drop T.chains off h.heads x
+      simp only [List.count_append, List.count_reverse, List.count_cons] at this ⊢
+      omega
+    rw [hperm.nodup_iff, List.nodup_cons]
+    exact ⟨hnotdead, h.nodup⟩
+  · intro off' hm
+    rcases (hmem off').1 hm with h4 | h4
+    · rw [h4]; exact hoff
+    · exact h.range off' h4
+  · intro off' _ hb h2 h3
+    rw [ht off' hb]
+    by_cases e : off' = off
+    · left; exact (hmem off').2 (Or.inl e)
+    · rw [if_neg e]
+      rcases h.cover off' htier hb h2 h3 with h4 | h4
+      · exact Or.inl ((hmem off').2 (Or.inr h4))
+      · exact Or.inr h4
+  · intro hd _ hm
+    obtain ⟨hm1, hne⟩ := (mem_heads_chainDrop _ _ _).1 hm
+    obtain ⟨a, b, c⟩ := h.headLive hd htier hm1
+    refine ⟨a, b, ?_⟩
+    rw [ht hd (by omega), if_neg hne]; exact c
+
+/-- the dead slots after a resize: the fresh slots join them -/
+theorem count_dead_resize (T : Tier) (hd m : Nat) (hnd : (T.chains.map (·.1)).Nodup) (x : Nat) :
+    ((T.resize hd m).free ++ ownedOf (T.resize hd m).chains).count x =
+      (T.free ++ ownedOf T.chains).count x +
+        (List.range' T.filled (m - (chainRest T.chains hd).length - T.free.length)).count x := by
+  have h1 := ownedOf_count_drop T.chains hd hnd x
+  simp only [Tier.resize, ownedOf_chainPut, List.count_append, List.count_reverse]
+  have h2 : (chainRest T.chains hd).count x =
+      ((chainRest T.chains hd).take m).count x + ((chainRest T.chains hd).drop m).count x := by
+    rw [← List.count_append, List.take_append_drop]
+  have h3 : T.free.count x =
+      (T.free.take (m - (chainRest T.chains hd).length)).count x +
+        (T.free.drop (m - (chainRest T.chains hd).length)).count x := by
+    rw [← List.count_append, List.take_append_drop]
+  omega
+
+/-- `overwrite_chain` on the live value at `hd`: `m` continuation slots afterwards -/
+theorem TierInv.resize {tl : Nat → Option Nat} {tier : Nat} {T : Tier} (h : TierInv tl tier T)
+    (htier : tier < 256) (hd m : Nat) (hlive : (tl (Address.new hd tier)).isSome = true)
+    (hr : 1 ≤ hd ∧ hd < T.filled) (hb : (T.resize hd m).filled ≤ 2 ^ 56) :
+    TierInv tl tier (T.resize hd m) := by
+  have hf := h.filled htier
+  have hcount := count_dead_resize T hd m h.heads
+  have hfil : (T.resize hd m).filled =
+      T.filled + (m - (chainRest T.chains hd).length - T.free.length) := rfl
+  have hmem : ∀ x, x ∈ (T.resize hd m).free ++ ownedOf (T.resize hd m).chains ↔
+      x ∈ T.free ++ ownedOf T.chains ∨ (T.filled ≤ x ∧ x < (T.resize hd m).filled) := by
+    intro x
+    have := hcount x
+    rw [← List.count_pos_iff, ← List.count_pos_iff, this, hfil]
+    have e : 0 < (List.range' T.filled (m - (chainRest T.chains hd).length - T.free.length)).count x ↔
+        (T.filled ≤ x ∧ x < T.filled + (m - (chainRest T.chains hd).length - T.free.length)) := by
+      rw [List.count_pos_iff, List.mem_range'_1]
+    omega
+  refine ⟨?_, ?_, ?_, fun _ => ⟨by rw [hfil]; omega, hb⟩, ?_, nodup_heads_chainPut _ _ _ h.heads, ?_⟩
+  · intro off _ hb' h3
+    rcases h3 with h3 | h3
+    · rcases (hmem off).1 h3 with h4 | h4
+      · exact h.fresh off htier hb' (Or.inl h4)
+      · exact h.fresh off htier hb' (Or.inr h4.1)
+    · exact h.fresh off htier hb' (Or.inr (by rw [hfil] at h3; omega))
+  · rw [List.nodup_iff_count]
+    intro x
+    rw [hcount x]
+    have h1 := List.nodup_iff_count.1 h.nodup x
+    have h2 := List.nodup_iff_count.1
+      (List.nodup_range' (s := T.filled) (n := m - (chainRest T.chains hd).length - T.free.length) (step := 1)) x
+    by_cases e : 0 < (T.free ++ ownedOf T.chains).count x
+    · have := h.range x (List.count_pos_iff.1 e)
+      have : (List.range' T.filled (m - (chainRest T.chains hd).length - T.free.length)).count x = 0 := by
+        rw [List.count_eq_zero]
+        intro hm
+        rw [List.mem_range'_1] at hm
+        omega
+      omega
+    · omega
+  · intro off hm
+    rcases (hmem off).1 hm with h4 | h4
+    · have := h.range off h4; rw [hfil]; omega
+    · omega
+  · intro off _ hb' h2 h3
+    by_cases e : off < T.filled
+    · rcases h.cover off htier hb' h2 e with h4 | h4
+      · exact Or.inl ((hmem off).2 (Or.inl h4))
+      · exact Or.inr h4
+    · exact Or.inl ((hmem off).2 (Or.inr ⟨by omega, h3⟩))
+  · intro h' _ hm
+    rcases mem_heads_chainPut _ _ _ _ hm with e | ⟨hm1, _⟩
+    · rw [e]; exact ⟨hr.1, by rw [hfil]; omega, hlive⟩
+    · obtain ⟨a, b, c⟩ := h.headLive h' htier hm1
+      exact ⟨a, by rw [hfil]; omega, c⟩
+
+/-! ## the column -/
+
 theorem SlotInv.congr {s s' : Col} (h : SlotInv s) (htier : ∀ t, s'.tier t = s.tier t)
     (ht : ∀ x, s'.tailAt x = s.tailAt x) : SlotInv s' := by
-  refine ⟨?_, ?_, ?_, ?_, ?_, ?_⟩
-  · intro tier off h1 h2 h3; rw [htier] at h3; rw [ht]; exact h.fresh tier off h1 h2 h3
+  refine ⟨fun tier => ?_, ?_⟩
+  · rw [htier]; exact (h.tiers tier).frame (fun _ off _ => ht _)
   · intro a tl ha; rw [ht] at ha
     obtain ⟨tier, off, h1, h2, h3, h4⟩ := h.addr a tl ha
     exact ⟨tier, off, h1, h2, by rw [htier]; exact h3, h4⟩
-  · intro tier; rw [htier]; exact h.nodup tier
-  · intro tier off ho; rw [htier] at ho ⊢; exact h.range tier off ho
-  · intro tier hlt; rw [htier]; exact h.filled tier hlt
-  · intro tier off h1 h2 h3 h4; rw [htier] at h4 ⊢; rw [ht]; exact h.cover tier off h1 h2 h3 h4
 
 /-- A live address decodes to its tier and offset. -/
 theorem SlotInv.decode {s : Col} (h : SlotInv s) (a tl : Nat) (ha : s.tailAt a = some tl) :
@@ -43,29 +429,49 @@ theorem SlotInv.decode {s : Col} (h : SlotInv s) (a tl : Nat) (ha : s.tailAt a =
   rw [address_tier_new off tier hlt h1, address_offset_new off tier hlt h1]
   exact ⟨h1, h2, h3, rfl, address_new_ne_zero off tier hlt h1 h2⟩
 
-/-- `clear_slot`. -/
+/-- the other tiers do not see a change of the stored tail at an address of tier `tier` -/
+theorem tier_frame {tl tl' : Nat → Option Nat} (tier o : Nat) (htier : tier < 256) (ho : o < 2 ^ 56)
+    (v : Option Nat) (ht : ∀ x, tl' x = if x = Address.new o tier then v else tl x) (t : Nat)
+    (hne : tier ≠ t) (_ : t < 256) (off : Nat) (hb : off < 2 ^ 56) :
+    tl' (Address.new off t) = tl (Address.new off t) := by
+  rw [ht]
+  have : ¬ Address.new off t = Address.new o tier := fun e =>
+    hne (address_new_inj off t o tier hb ‹t < 256› ho htier e).2.symm
+  rw [if_neg this]
+
+theorem tier_point {tl tl' : Nat → Option Nat} (tier o : Nat) (htier : tier < 256) (ho : o < 2 ^ 56)
+    (v : Option Nat) (ht : ∀ x, tl' x = if x = Address.new o tier then v else tl x)
+    (off : Nat) (hb : off < 2 ^ 56) :
+    tl' (Address.new off tier) = if off = o then v else tl (Address.new off tier) := by
+  rw [ht]
+  by_cases e : off = o
+  · simp [e]
+  · have : ¬ Address.new off tier = Address.new o tier := fun e' =>
+      e (address_new_inj off tier o tier hb htier ho htier e').1
+    rw [if_neg this, if_neg e]
+
+/-- `clear_slot` / `clear_chain` of a live value. -/
 theorem SlotInv.free_val {s s' : Col} (h : SlotInv s) (a tl : Nat) (ha : s.tailAt a = some tl)
     (htier : ∀ t, s'.tier t = if Address.size_tier a = t then
-      ⟨(s.tier t).filled, Address.offset a :: (s.tier t).free⟩ else s.tier t)
+      ⟨(s.tier t).filled,
+        (Address.offset a :: chainRest (s.tier t).chains (Address.offset a)).reverse ++ (s.tier t).free,
+        chainDrop (s.tier t).chains (Address.offset a)⟩ else s.tier t)
     (ht : ∀ x, s'.tailAt x = if x = a then none else s.tailAt x) : SlotInv s' := by
   obtain ⟨d1, d2, d3, d4, _⟩ := h.decode a tl ha
   have hoff : Address.offset a < 2 ^ 56 := Nat.lt_of_lt_of_le d3 (h.filled _ d1).2
-  refine ⟨?_, ?_, ?_, ?_, ?_, ?_⟩
-  · intro tier off h1 hb h3
-    rw [ht]
-    by_cases hx : Address.new off tier = a
-    · simp [hx]
-    · simp only [hx, if_false]
-      rw [htier] at h3
-      by_cases htt : Address.size_tier a = tier
-      · simp only [htt, if_true] at h3
-        rcases h3 with h3 | h3
-        · rcases List.mem_cons.1 h3 with h4 | h4
-          · exfalso; apply hx; rw [d4, ← htt, h4]
-          · exact h.fresh tier off h1 hb (Or.inl h4)
-        · exact h.fresh tier off h1 hb (Or.inr h3)
-      · simp only [htt, if_false] at h3
-        exact h.fresh tier off h1 hb h3
+  have ht' : ∀ x, s'.tailAt x =
+      if x = Address.new (Address.offset a) (Address.size_tier a) then none else s.tailAt x := by
+    rw [← d4]; exact ht
+  refine ⟨fun tier => ?_, ?_⟩
+  · rw [htier]
+    by_cases htt : Address.size_tier a = tier
+    · subst htt
+      rw [if_pos rfl]
+      refine (h.tiers _).release d1 (Address.offset a) ?_ ⟨d2, d3⟩
+        (tier_point _ _ d1 hoff none ht')
+      rw [← d4, ha]; rfl
+    · rw [if_neg htt]
+      exact (h.tiers tier).frame (tier_frame _ _ d1 hoff none ht' tier htt)
   · intro x tl' hx
     rw [ht] at hx
     by_cases hxa : x = a
@@ -75,53 +481,16 @@ theorem SlotInv.free_val {s s' : Col} (h : SlotInv s) (a tl : Nat) (ha : s.tailA
       refine ⟨tier, off, h1, h2, ?_, h4⟩
       rw [htier]
       by_cases htt : Address.size_tier a = tier <;> simp [htt, h3]
-  · intro tier
-    rw [htier]
-    by_cases htt : Address.size_tier a = tier
-    · simp only [htt, if_true]
-      refine List.nodup_cons.2 ⟨fun hm => ?_, h.nodup tier⟩
-      have := h.fresh tier (Address.offset a) (htt ▸ d1) hoff (Or.inl hm)
-      rw [← htt, ← d4, ha] at this
-      exact absurd this (by simp)
-    · simp only [htt, if_false]; exact h.nodup tier
-  · intro tier off ho
-    rw [htier] at ho ⊢
-    by_cases htt : Address.size_tier a = tier
-    · simp only [htt, if_true] at ho ⊢
-      rcases List.mem_cons.1 ho with h4 | h4
-      · rw [h4]; exact ⟨d2, htt ▸ d3⟩
-      · exact h.range tier off h4
-    · simp only [htt, if_false] at ho ⊢; exact h.range tier off ho
-  · intro tier hlt
-    rw [htier]
-    by_cases htt : Address.size_tier a = tier <;> simp [htt, h.filled tier hlt]
-  · intro tier off h1 hb h2 h3
-    rw [htier] at h3 ⊢
-    rw [ht]
-    have hfil : (s.tier tier).filled = (if Address.size_tier a = tier then
-        (⟨(s.tier tier).filled, Address.offset a :: (s.tier tier).free⟩ : Tier) else s.tier tier).filled := by
-      by_cases htt : Address.size_tier a = tier <;> simp [htt]
-    rw [← hfil] at h3
-    by_cases hx : Address.new off tier = a
-    · left
-      rw [d4] at hx
-      obtain ⟨e1, e2⟩ := address_new_inj off tier _ _ hb h1 hoff d1 hx
-      simp [e2, e1]
-    · simp only [hx, if_false]
-      rcases h.cover tier off h1 hb h2 h3 with h4 | h4
-      · left
-        by_cases htt : Address.size_tier a = tier <;> simp [htt, h4]
-      · exact Or.inr h4
 
 theorem Col.alloc_nil (s : Col) (tier : Nat) (h : (s.tier tier).free = []) :
     s.alloc tier = ((s.tier tier).filled,
-      { s with tiers := s.tiers.set DEPTH tier (some ⟨(s.tier tier).filled + 1, []⟩) }) := by
+      { s with tiers := s.tiers.set DEPTH tier (some ⟨(s.tier tier).filled + 1, [], (s.tier tier).chains⟩) }) := by
   unfold Col.alloc
   simp only [h]
 
 theorem Col.alloc_cons (s : Col) (tier o : Nat) (rest : List Nat) (h : (s.tier tier).free = o :: rest) :
     s.alloc tier = (o,
-      { s with tiers := s.tiers.set DEPTH tier (some ⟨(s.tier tier).filled, rest⟩) }) := by
+      { s with tiers := s.tiers.set DEPTH tier (some ⟨(s.tier tier).filled, rest, (s.tier tier).chains⟩) }) := by
   unfold Col.alloc
   simp only [h]
 
@@ -135,9 +504,11 @@ theorem SlotInv.alloc_set {s s' : Col} (h : SlotInv s) (tier tl : Nat) (htier : 
   have hf := h.filled tier htier
   -- the two cases of the allocator
   have hcases : (∃ o rest, (s.tier tier).free = o :: rest ∧ (s.alloc tier).1 = o ∧
-        ∀ t, (s.alloc tier).2.tier t = if tier = t then ⟨(s.tier tier).filled, rest⟩ else s.tier t) ∨
+        ∀ t, (s.alloc tier).2.tier t =
+          if tier = t then ⟨(s.tier tier).filled, rest, (s.tier tier).chains⟩ else s.tier t) ∨
       ((s.tier tier).free = [] ∧ (s.alloc tier).1 = (s.tier tier).filled ∧
-        ∀ t, (s.alloc tier).2.tier t = if tier = t then ⟨(s.tier tier).filled + 1, []⟩ else s.tier t) := by
+        ∀ t, (s.alloc tier).2.tier t =
+          if tier = t then ⟨(s.tier tier).filled + 1, [], (s.tier tier).chains⟩ else s.tier t) := by
     cases hfr : (s.tier tier).free with
     | nil =>
       right
@@ -149,34 +520,19 @@ theorem SlotInv.alloc_set {s s' : Col} (h : SlotInv s) (tier tl : Nat) (htier : 
       exact ⟨o, rest, rfl, rfl, fun t => Col.tier_set s tier t _⟩
   rcases hcases with ⟨o, rest, hfree, hoff, htiers⟩ | ⟨hfree, hoff, htiers⟩
   · -- pop
-    have ho := h.range tier o (by rw [hfree]; simp)
+    have ho := h.range tier o (by simp [Col.dead, hfree])
     have ho56 : o < 2 ^ 56 := Nat.lt_of_lt_of_le ho.2 hf.2
-    have hnd := h.nodup tier
-    rw [hfree] at hnd
-    have hnotin : o ∉ rest := (List.nodup_cons.1 hnd).1
     have hfresh : s.tailAt (Address.new o tier) = none :=
-      h.fresh tier o htier ho56 (Or.inl (by rw [hfree]; simp))
+      h.fresh tier o htier ho56 (Or.inl (by simp [Col.dead, hfree]))
     rw [hoff] at ht ⊢
-    refine ⟨⟨?_, ?_, ?_, ?_, ?_, ?_⟩, hfresh, ho.1, ho56⟩
-    · intro tier0 off h1 hb h3
-      rw [hts, htiers] at h3
-      rw [ht]
-      by_cases hx : Address.new off tier0 = Address.new o tier
-      · obtain ⟨e1, e2⟩ := address_new_inj off tier0 o tier hb h1 ho56 htier hx
-        subst e1; subst e2
-        simp only [if_true] at h3
-        rcases h3 with h3 | h3
-        · exact absurd h3 hnotin
-        · exact absurd ho.2 (Nat.not_lt.2 h3)
-      · simp only [hx, if_false]
-        by_cases htt : tier = tier0
-        · subst htt
-          simp only [if_true] at h3
-          rcases h3 with h3 | h3
-          · exact h.fresh tier off h1 hb (Or.inl (by rw [hfree]; exact List.mem_cons_of_mem _ h3))
-          · exact h.fresh tier off h1 hb (Or.inr h3)
-        · simp only [htt, if_false] at h3
-          exact h.fresh tier0 off h1 hb h3
+    refine ⟨⟨fun tier0 => ?_, ?_⟩, hfresh, ho.1, ho56⟩
+    · rw [hts, htiers]
+      by_cases htt : tier = tier0
+      · subst htt
+        rw [if_pos rfl]
+        exact (h.tiers tier).pop htier o rest hfree tl (tier_point tier o htier ho56 _ ht)
+      · rw [if_neg htt]
+        exact (h.tiers tier0).frame (tier_frame tier o htier ho56 _ ht tier0 htt)
     · intro x tl' hx
       rw [ht] at hx
       by_cases hxa : x = Address.new o tier
@@ -189,40 +545,6 @@ theorem SlotInv.alloc_set {s s' : Col} (h : SlotInv s) (tier tl : Nat) (htier : 
         by_cases htt : tier = tier0
         · subst htt; simpa using h3
         · simpa [htt] using h3
-    · intro tier0
-      rw [hts, htiers]
-      by_cases htt : tier = tier0
-      · simp only [htt, if_true]; exact (List.nodup_cons.1 hnd).2
-      · simp only [htt, if_false]; exact h.nodup tier0
-    · intro tier0 off hm
-      rw [hts, htiers] at hm ⊢
-      by_cases htt : tier = tier0
-      · subst htt
-        simp only [if_true] at hm ⊢
-        exact h.range tier off (by rw [hfree]; exact List.mem_cons_of_mem _ hm)
-      · simp only [htt, if_false] at hm ⊢; exact h.range tier0 off hm
-    · intro tier0 hlt0
-      rw [hts, htiers]
-      by_cases htt : tier = tier0
-      · subst htt; simpa using hf
-      · simp only [htt, if_false]; exact h.filled tier0 hlt0
-    · intro tier0 off h1 hb h2 h3
-      rw [hts, htiers] at h3 ⊢
-      rw [ht]
-      by_cases hx : Address.new off tier0 = Address.new o tier
-      · right; simp [hx]
-      · simp only [hx, if_false]
-        by_cases htt : tier = tier0
-        · subst htt
-          simp only [if_true] at h3 ⊢
-          rcases h.cover tier off h1 hb h2 h3 with h4 | h4
-          · rw [hfree] at h4
-            rcases List.mem_cons.1 h4 with h5 | h5
-            · exfalso; apply hx; rw [h5]
-            · exact Or.inl h5
-          · exact Or.inr h4
-        · simp only [htt, if_false] at h3 ⊢
-          exact h.cover tier0 off h1 hb h2 h3
   · -- extend
     have hb' : (s.tier tier).filled + 1 ≤ 2 ^ 56 := by
       have := hbound
@@ -232,26 +554,14 @@ theorem SlotInv.alloc_set {s s' : Col} (h : SlotInv s) (tier tl : Nat) (htier : 
     have hfresh : s.tailAt (Address.new (s.tier tier).filled tier) = none :=
       h.fresh tier _ htier ho56 (Or.inr (Nat.le_refl _))
     rw [hoff] at ht ⊢
-    refine ⟨⟨?_, ?_, ?_, ?_, ?_, ?_⟩, hfresh, hf.1, ho56⟩
-    · intro tier0 off h1 hb h3
-      rw [hts, htiers] at h3
-      rw [ht]
-      by_cases hx : Address.new off tier0 = Address.new (s.tier tier).filled tier
-      · obtain ⟨e1, e2⟩ := address_new_inj off tier0 _ tier hb h1 ho56 htier hx
-        subst e2
-        simp only [if_true] at h3
-        rcases h3 with h3 | h3
-        · simp at h3
-        · omega
-      · simp only [hx, if_false]
-        by_cases htt : tier = tier0
-        · subst htt
-          simp only [if_true] at h3
-          rcases h3 with h3 | h3
-          · simp at h3
-          · exact h.fresh tier off h1 hb (Or.inr (by omega))
-        · simp only [htt, if_false] at h3
-          exact h.fresh tier0 off h1 hb h3
+    refine ⟨⟨fun tier0 => ?_, ?_⟩, hfresh, hf.1, ho56⟩
+    · rw [hts, htiers]
+      by_cases htt : tier = tier0
+      · subst htt
+        rw [if_pos rfl]
+        exact (h.tiers tier).extend htier hfree hb' tl (tier_point tier _ htier ho56 _ ht)
+      · rw [if_neg htt]
+        exact (h.tiers tier0).frame (tier_frame tier _ htier ho56 _ ht tier0 htt)
     · intro x tl' hx
       rw [ht] at hx
       by_cases hxa : x = Address.new (s.tier tier).filled tier
@@ -264,40 +574,39 @@ theorem SlotInv.alloc_set {s s' : Col} (h : SlotInv s) (tier tl : Nat) (htier : 
         by_cases htt : tier = tier0
         · subst htt; simp; omega
         · simpa [htt] using h3
-    · intro tier0
-      rw [hts, htiers]
-      by_cases htt : tier = tier0
-      · simp [htt]
-      · simp only [htt, if_false]; exact h.nodup tier0
-    · intro tier0 off hm
-      rw [hts, htiers] at hm ⊢
-      by_cases htt : tier = tier0
-      · subst htt; simp at hm
-      · simp only [htt, if_false] at hm ⊢; exact h.range tier0 off hm
-    · intro tier0 hlt0
-      rw [hts, htiers]
-      by_cases htt : tier = tier0
-      · subst htt; simp; omega
-      · simp only [htt, if_false]; exact h.filled tier0 hlt0
-    · intro tier0 off h1 hb h2 h3
-      rw [hts, htiers] at h3 ⊢
-      rw [ht]
-      by_cases hx : Address.new off tier0 = Address.new (s.tier tier).filled tier
-      · right; simp [hx]
-      · simp only [hx, if_false]
-        by_cases htt : tier = tier0
-        · subst htt
-          simp only [if_true] at h3 ⊢
-          have : off < (s.tier tier).filled := by
-            rcases Nat.lt_or_ge off (s.tier tier).filled with h5 | h5
-            · exact h5
-            · exfalso; apply hx
-              have : off = (s.tier tier).filled := by omega
-              rw [this]
-          rcases h.cover tier off h1 hb h2 this with h4 | h4
-          · rw [hfree] at h4; simp at h4
-          · exact Or.inr h4
-        · simp only [htt, if_false] at h3 ⊢
-          exact h.cover tier0 off h1 hb h2 h3
+
+theorem Col.tier_resize (s : Col) (tier hd m t : Nat) :
+    (s.resize tier hd m).tier t = if tier = t then (s.tier tier).resize hd m else s.tier t :=
+  Col.tier_set s tier t _
+
+theorem Tier.resize_filled_le (T : Tier) (hd m : Nat) : T.filled ≤ (T.resize hd m).filled :=
+  Nat.le_add_right _ _
+
+/-- `overwrite_chain`: the live value at address `a` takes `m` continuation slots. -/
+theorem SlotInv.resize {s s' : Col} (h : SlotInv s) (a tl : Nat) (ha : s.tailAt a = some tl) (m : Nat)
+    (hts : ∀ t, s'.tier t = if Address.size_tier a = t then
+      (s.tier t).resize (Address.offset a) m else s.tier t)
+    (ht : ∀ x, s'.tailAt x = s.tailAt x)
+    (hb : (s'.tier (Address.size_tier a)).filled ≤ 2 ^ 56) : SlotInv s' := by
+  obtain ⟨d1, d2, d3, d4, _⟩ := h.decode a tl ha
+  refine ⟨fun tier => ?_, ?_⟩
+  · rw [hts]
+    by_cases htt : Address.size_tier a = tier
+    · subst htt
+      rw [if_pos rfl]
+      rw [hts, if_pos rfl] at hb
+      refine ((h.tiers _).resize d1 (Address.offset a) m ?_ ⟨d2, d3⟩ hb).frame (fun _ off _ => ht _)
+      rw [← d4, ha]; rfl
+    · rw [if_neg htt]
+      exact (h.tiers tier).frame (fun _ off _ => ht _)
+  · intro x tl' hx
+    rw [ht] at hx
+    obtain ⟨tier, off, h1, h2, h3, h4⟩ := h.addr x tl' hx
+    refine ⟨tier, off, h1, h2, ?_, h4⟩
+    rw [hts]
+    by_cases htt : Address.size_tier a = tier
+    · rw [if_pos htt]
+      exact Nat.lt_of_lt_of_le h3 (Tier.resize_filled_le _ _ _)
+    · rw [if_neg htt]; exact h3
 
 end Pdb.Index
